@@ -166,3 +166,26 @@ _more("C16", "Also decided: the per-element strain/stress reduction extracts at 
 _more("C17", "Also decided: under HistoryDamage the bounded damage is stored as the simulation's damage, under BoundConstrain the lower bound is the current damage; no model function writes the driving-energy array it receives in place (interprocedural alias analysis).")
 _more("C18", "Also decided: the fixed-rule strain-path quadrature of TimeQuadratureStressTensor, interpreted with symbolic weights for several rules and coefK values, averages dW and the s-weighted d2W over states on the segment between the two end states only (R18.6).")
 _more("C19", "Also decided: the plane-stress condensation is the Schur complement of the zz row/column of a general non-symmetric tangent (rational-function identity, R19.5); hardening / back-stress / stress functions in the local residual and Jacobian are evaluated at slots of (committed state + increment), R and dR at the same expression (R19.6).")
+
+
+# ---- clauses added in the third round (generic history / aliasing rules, protocol model, semantic round trips) ----
+_more("C12", "Since round 3 the protocol overrides themselves ARE decided, under a stated model of numpy's subclass protocols (sa/femodel.py: operators are ufuncs dispatched to __array_ufunc__, public numpy functions to __array_function__, indexing / view / reshape keep the subclass): FeArray.__array_ufunc__, __array_function__, _align, __wrap, _FeShape, _Base, T, __matmul__, __rmatmul__, dot, ddot, the generated reducers, reshape, integrate, asfearray and broadcast are interpreted from the source on symbolic arrays with Ne == nPg == dim collisions, and every result (value and FeArray/ndarray type) is compared with the plain numpy operation on the tensors at each (e, p): all rank pairs and leading-shape variants of + - * /, field-constant and constant-field, @ / dot / ddot for ranks 1, 2, 4 with field and constant operands, transposes, sum / prod / max / min / mean over every axis through the method and the np. route, keyword-passed fields, the constructor decision table (R12.7, ~800 obligations); no array kept in a class-level container is handed out without a copy (R12.8).")
+CHECKS["C12"]["note"] = "The model of numpy's protocols is the trusted base (stated in sa/femodel.py); functions outside the modelled set are not decided. Known finding F40: numpy functions outside _REDUCERS that consume the (Ne, nPg) axes are typed by shape coincidence."
+CHECKS["C12"]["technique"] = "abstract interpretation of the FeArray implementation under a protocol model, compared with per-point tensor semantics on symbolic arrays; finite-domain folding of subscript generators; call-site rules"
+_more("C13", "Since round 3: forms over the grammar (u, v, grad, Sym_Grad, Trace, Transpose, dot / ddot / @, scalar / field / constant-tensor coefficients on either side, 23 forms for scalar and vector fields) are evaluated twice - by interpreting the repository's Field, FeArray and BiLinearForm / LinearForm.Integrate_e source on symbolic shape-function data, and by plain Python on per-point reference tensors (sa/formspec.py) - and the integrated element arrays are compared entry by entry (R13.8); no gradient buffer is shared between the trial field and its copy (R13.9); the evaluation-mode flag of a Field is lowered on every path (R13.10).")
+_more("C14", "Since round 3: setters store and reach their invalidation / notification on every completing path, guards on the object's current state included (R14.7); no control flow on np.allclose / np.isclose in the kernels and mutators (R14.8); every hand-rolled memo (guarded compute-and-store into an attribute) has each input in its key, immutable, or reset by each method that changes it - violations come with the witness method (R14.9); memoised methods take value arguments only (R14.10); no in-place write through a local alias of private state (R14.11), no class-level array buffer shared by instances (R14.12), Get_K_C_M_F returns whole copies (R14.13); loops over the element groups visit every group and no per-group value is used after the loop (R14.14, R14.15); raised mode flags are lowered (R14.16); the mesh setter designates and observes the assigned mesh whatever mesh was current (R14.17); the inputs of the system size (Lagrange conditions, Dirichlet dofs) raise Need_Update (R14.3b).")
+_more("C15", "Since round 3: Load_Mesh(Mesh.Save(mesh)) is interpreted on recorder stubs: same element groups in the same order, each with its connectivity, coordinates, partition data by name and tags (R15.5, replaces the structural tuple-order rule); no memo of what was read survives a later save (R15.8); Save_Iter overrides are idempotent commits (R15.12); the mesh setter index invariant (R15.11); no in-place write through aliases of stored state (R15.10).")
+_more("C20", "Since round 3: the mesh save / load round trip of the partition data by interpretation (R20.8); the owned nodes of a multi-group mesh are the union without repetition (R20.9, interpreted on overlapping groups).")
+_more("C04", "Since round 3: every dof-sized operand of the reduced solve (x0, lb, ub) is restricted to the unknown dofs (R4.1); the Newton increment of a dof is (sum of its entered values) - current value, also when the dof is entered several times (R4.6, interpreted on the raw list [3, 5, 3]); dof(node, unknown) for every ordered selection of the unknowns (R3.1, 30 orderings).")
+_more("C03", "Since round 3: Get_K_C_M_F returns whole copies (R3.7); R3.1 over every ordered selection of unknowns; group loops of the assembly visit every group (R3.8).")
+_more("C05", "Since round 3: no memo of a scheme-dependent quantity survives a change of the scheme parameters (R5.8, hand-rolled memo coverage with witness; R5.9 memoised methods take value arguments).")
+_more("C07", "Since round 3: no control flow on approximate comparisons between the tables and the measures (R7.6), the coordinate setters store and invalidate on every path (R7.7), the rule arrays are not shared between Gauss objects (R7.8).")
+_more("C01", "Since round 3: no tolerance-gated shortcut in the kernels the patch test runs through (R1.8); no per-group treatment placed after the loop over the element groups (R1.9).")
+_more("C02", "Since round 3: |det F| element by element (R8.5 shared), orthonormal stored member frames on exact inclined directions (R10.8 shared), member abscissa vs frame direction (R10.9 shared, known finding F41), no per-group treatment after the group loop (R2.9).")
+_more("C08", "Since round 3: the residual of the inverse isoparametric map vanishes identically at xP = x(xi) on generic straight-sided quadrangles / hexahedra / prisms and the affine closed form inverts simplices (R8.8); no memo of a geometric quantity survives a coordinate change (R8.9); no in-place write through aliases of the stored coordinates (R8.11); the point-location loop visits every element group (R8.12).")
+_more("C09", "Since round 3: R9.7 is now stated on a member with an arbitrary (symbolic) frame: the nodal load of a global component g is sum_p wJ_p f_g sum_l P[g,l] N_local[l] whatever route each unknown takes; Get_GaussCoordinates_e_pg keeps the order of an unsorted element selection (R9.11); queries do not write stored coordinates through aliases (R9.10); load loops visit every group (R9.12).")
+_more("C10", "Since round 3: no memo keyed by an object whose axes it reads (R10.6, R10.7); the stored member frame is orthonormal for any given vertical axis on exact inclined directions (R10.8); the shape-function derivative used by the beam operators is taken along the fibre direction of the member frame in all embeddings and both drawing directions (R10.9, known finding F41); the global-component line load of R9.7.")
+_more("C16", "Since round 3: full-tensor results are the unscaled Kelvin components (R16.4 extended); the storage location (per node / per element) of a result is not inferred from a size coincidence (R16.10, known findings F36a/b); the staggered memo flags (R14.6 shared); result loops visit every group (R16.11).")
+_more("C17", "Since round 3: polarity of the isotropic splits - the positive part is built from (Rp, projP) only - in plane stress, plane strain and 3-D (R17.7); the trace-sign selectors on concrete states (R17.8); Save_Iter commits are idempotent (R17.9).")
+_more("C18", "Since round 3: no memo of the step-start state (R18.8-R18.10).")
+_more("C19", "Since round 3: the multiplier column of the local Jacobian is the derivative of the residual with respect to dGamma for every row polynomial in it, with the state read at (committed + increment) on both sides (R19.11, polynomial identity over opaque leaves); Save_Iter commits are idempotent (R19.10).")
